@@ -208,6 +208,9 @@ class Fn:
     extra: tuple = ()
     #: indices (into params) of arguments that must be non-empty str/bytes literals
     nonempty_lit: tuple = ()
+    #: a call on an abstract collaborator (e.g. `self._rfile.readline()`): the collaborator's state
+    #: is this env key; the Lean function takes that state first and returns `(result, new state)`
+    effect_key: str | None = None
     #: a translated stateful method of the same object: the call passes the current values of these
     #: state keys (e.g. "self._headers") first and gets them back: the result is `State`,
     #: `State × R` or `State × Except String R` as described at Spec.state
@@ -236,6 +239,7 @@ EXC_PARENT = {
     "ArithmeticError": "Exception",
     "AttributeError": "Exception",
     "StopIteration": "Exception",
+    "OSError": "Exception",
     "Exception": "BaseException",
     # werkzeug.exceptions
     "HTTPException": "Exception",
@@ -501,6 +505,7 @@ class Translator:
         self.raises = spec.raises
         self.aux = []  # text of auxiliary definitions (loops), in order
         self.nloops = 0
+        self._handlers = None  # except clauses of the enclosing `try`
         self.njoin = 0
         self.loop_memo = {}
         self.size = 0
@@ -588,6 +593,11 @@ class Translator:
         if spec.type_params:
             binders.append("{" + " ".join(spec.type_params) + " : Type}")
         self.implicit = binders[0] + " " if binders else ""
+        self.has_while = any(isinstance(x, ast.While) for x in ast.walk(fn))
+        if self.has_while:
+            # a `while` loop is translated with an explicit bound on its iterations; running out of it
+            # is a marker error, so an equality theorem has to show that the bound given suffices
+            binders.append("(fuel : Nat)")
         for nm, ty in spec.opaque:
             binders.append(f"({nm} : {ty})")
         for p, ty in spec.params:
@@ -599,10 +609,10 @@ class Translator:
         self.opaque_args = "".join(" " + nm for nm, _ in spec.opaque)
         rty = lean_ty(self.result_ty)
         if spec.state:
-            for f in spec.state:
-                if "self." + f not in env:
-                    raise Untranslatable(f"{self.where}: state attribute {f!r} is not declared in params as ('self.{f}', type)")
-            st_ty = " × ".join(lean_ty(env["self." + f].ty, len(spec.state) == 1) for f in spec.state)
+            for key_ in self.state_keys():
+                if key_ not in env:
+                    raise Untranslatable(f"{self.where}: state {key_!r} is not declared in params")
+            st_ty = " × ".join(lean_ty(env[key_].ty, len(spec.state) == 1) for key_ in self.state_keys())
             if spec.raises:
                 rty = f"({st_ty}) × Except String {_par(rty)}"
             else:
@@ -641,8 +651,14 @@ class Translator:
 
     # ---- results --------------------------------------------------------
 
+    def state_keys(self):
+        """env keys of the state the method hands back: attributes `self.f`, or plain parameters that
+        it mutates in place (e.g. the caller's buffer)"""
+        declared = {p for p, _ in self.spec.params}
+        return [("self." + f) if ("self." + f) in declared else f for f in self.spec.state]
+
     def state_tuple_of(self, env, node, keys=None):
-        keys = ["self." + f for f in self.spec.state] if keys is None else keys
+        keys = self.state_keys() if keys is None else keys
         items = []
         for key in keys:
             if key not in env:
@@ -1379,7 +1395,7 @@ class Translator:
                     for a in res[1]:
                         if isinstance(a, ast.AST):
                             walk(a, lazy)
-                    if res[0].raises:
+                    if res[0].raises or res[0].effect_key:
                         found.append((x, res, lazy))
                     return
             if isinstance(x, ast.Subscript) and not isinstance(x.slice, ast.Slice):
@@ -1513,7 +1529,10 @@ class Translator:
                 if isinstance(s, ast.Return):
                     return self.comment(s) + self.stateful_call(s, s.value, res0, env, loop, None, lambda e, env2: self.emit_return(e, s, env2, loop))
                 if len(s.targets) == 1:
-                    return self.comment(s) + self.stateful_call(s, s.value, res0, env, loop, None, lambda e, env2: self.bind(s.targets[0], e, s, env2, loop, k))
+                    tgt_ = s.targets[0] if isinstance(s.targets[0], ast.Name) else self.target_key(s.targets[0], env)
+                    if tgt_ is None:
+                        self.bad(s, "assignment target that is not a local name / state attribute")
+                    return self.comment(s) + self.stateful_call(s, s.value, res0, env, loop, None, lambda e, env2: self.bind(tgt_, e, s, env2, loop, k))
         # --- effects of abstract collaborators (spec.effects)
         if isinstance(s, ast.Expr) and self.spec.effects:
             src = ast.unparse(s.value)
@@ -1590,12 +1609,19 @@ class Translator:
                 self.bad(s, "annotation without value")
             return self.comment(s) + self.stmt_value(s, s.value, env, loop, lambda e, env2: self.bind(s.target, e, s, env2, loop, k), handlers=None)
         if isinstance(s, ast.AugAssign):
-            if not isinstance(s.target, ast.Name):
-                self.bad(s, "augmented assignment to a non-name")
-            value = ast.BinOp(left=ast.Name(id=s.target.id, ctx=ast.Load()), op=s.op, right=s.value)
+            key_ = self.target_key(s.target, env)
+            if key_ is None:
+                self.bad(s, "augmented assignment to something that is not a local name / state attribute")
+            import copy as _copy_mod
+
+            left = _copy_mod.deepcopy(s.target)
+            for x in ast.walk(left):
+                if hasattr(x, "ctx"):
+                    x.ctx = ast.Load()
+            value = ast.BinOp(left=left, op=s.op, right=s.value)
             ast.copy_location(value, s)
             ast.fix_missing_locations(value)
-            return self.comment(s) + self.stmt_value(s, value, env, loop, lambda e, env2: self.bind(s.target, e, s, env2, loop, k), handlers=None)
+            return self.comment(s) + self.stmt_value(s, value, env, loop, lambda e, env2: self.bind(key_, e, s, env2, loop, k), handlers=None)
         if isinstance(s, ast.Expr) and isinstance(s.value, ast.Call) and isinstance(s.value.func, ast.Attribute) and s.value.func.attr == "append" and isinstance(s.value.func.value, ast.Name) and len(s.value.args) == 1 and not s.value.keywords:
             tgt = s.value.func.value
             if tgt.id not in env or env[tgt.id].ty.kind != "List":
@@ -1610,21 +1636,27 @@ class Translator:
 
             return self.comment(s) + self.stmt_value(s, s.value.args[0], env, loop, use_append, handlers=None)
         if isinstance(s, ast.If):
-            if loop is None and not getattr(s, "_py2lean_comment", None):
+            if (loop is None or getattr(loop, "join_ty", None)) and not getattr(s, "_py2lean_comment", None):
                 return self.stmt_if_joined(s, env, loop, k)
             return self.stmt_if(s, env, loop, k)
         if isinstance(s, ast.Raise):
-            if s.cause is not None or s.exc is None:
-                self.bad(s, "raise with a cause / bare raise")
+            if s.exc is None or (s.cause is not None and not isinstance(s.cause, ast.Name)):
+                self.bad(s, "bare raise / raise with a cause that is not a bound exception name")
             e = s.exc
             cls = e.id if isinstance(e, ast.Name) else (e.func.id if isinstance(e, ast.Call) and isinstance(e.func, ast.Name) else None)
             if cls is None or cls not in EXC_PARENT:
                 self.bad(s, "raise of something that is not a known exception class")
+            if self._handlers is not None:
+                for classes_, _ in self._handlers:
+                    if any(exc_is(cls, h_) for h_ in classes_):
+                        self.bad(s, "raise of an exception that an enclosing except clause catches")
             return self.comment(s) + self.wrap_error(f'"{cls}"', s, loop, env)
         if isinstance(s, ast.Try):
             return self.stmt_try(s, env, loop, k)
         if isinstance(s, ast.For):
             return self.stmt_for(s, env, loop, k)
+        if isinstance(s, ast.While):
+            return self.stmt_while(s, env, loop, k)
         if isinstance(s, ast.Continue):
             if loop is None:
                 self.bad(s, "continue outside a loop")
@@ -1640,12 +1672,34 @@ class Translator:
     def bind_raising(self, s, value, env, loop, handlers, cont, first=True):
         """bind the raising calls of expression `value` to temporaries, in evaluation order, each by
         `match <call> with | .error … | .ok v => …`, then continue with cont(value', env')"""
+        if handlers is None:
+            handlers = self._handlers
         rc = self.raising_calls(value, env)
         if not rc:
-            if handlers is not None and first:
-                self.bad(s, "try body without a raising call (the except clause would be dead code; refusing to guess)")
             return cont(value, env)
         node, res, lazy = rc[0]
+        if res is not None and res[0].effect_key and not res[0].raises:
+            if lazy:
+                self.bad(s, "a call with an effect on a collaborator under a short-circuiting operator")
+            fn, args = res
+            key_ = fn.effect_key
+            if key_ not in env:
+                self.bad(s, f"collaborator state {key_} is not defined")
+            ce = self.apply(fn, args, node, env)
+            call_lean = ce.lean.replace(fn.lean, f"{fn.lean} {env[key_].lean}", 1)
+            self.tmp += 1
+            r = f"r{self.tmp}_"
+            tmp = f"v{self.tmp}_"
+            stv = env[key_]
+            env3 = dict(env)
+            env3[key_] = Var(stv.lean, stv.ty)
+            drop_facts(env3, key_)
+            keyn = f"<tmp:{id(node)}>"
+            env3[keyn] = Var(tmp, ce.ty)
+            value2 = _Subst(node, ast.Name(id=keyn, ctx=ast.Load())).visit(_copy(value))
+            ast.fix_missing_locations(value2)
+            lines = [f"let {r} := {call_lean}", f"let {tmp} : {lean_ty(ce.ty)} := {r}.1", f"let {stv.lean} : {lean_ty(stv.ty)} := {r}.2"]
+            return lines + self.bind_raising(s, value2, env3, loop, handlers, cont, first=False)
         if lazy:
             self.bad(s, "a raising call under a short-circuiting operator (only supported in the test of an `if`, where it is rewritten to nested ifs)")
         if res is not None and res[0].partial_model and handlers is not None:
@@ -1782,6 +1836,10 @@ class Translator:
         if isinstance(s, ast.Assign) and len(s.targets) == 1 and isinstance(s.targets[0], ast.Subscript):
             t = s.targets[0]
             key = self.target_key(t.value, env)
+            if key is not None and env[key].ty.kind == "Bytes" and isinstance(t.slice, ast.Slice) and t.slice.step is None:
+                # a bytearray: slice assignment only
+                none = ast.Constant(value=None)
+                return ("setslice", key, [t.slice.lower or none, t.slice.upper or none, s.value])
             if key is not None and env[key].ty.kind == "List":
                 if isinstance(t.slice, ast.Slice):
                     if t.slice.step is not None:
@@ -1799,7 +1857,7 @@ class Translator:
     def stmt_mutation(self, s, mt, env, loop, k):
         kind, key, args = mt
         ty = env[key].ty
-        elt = ty.args[0]
+        elt = ty.args[0] if ty.args else None
         if kind.startswith("method:"):
             lean_fn, ptys, raises = MUTATORS[(ty.kind, kind[7:])]
             ptys = [elt if t == "elt" else t for t in ptys]
@@ -1848,7 +1906,7 @@ class Translator:
             self.tmp += 1
             tmp = f"v{self.tmp}_"
             err = ["| .error e_ =>"] + ind(self.wrap_error("e_", s, loop, env2))
-            handlers = getattr(self, "_cur_handlers", None)
+            handlers = self._handlers
             if handlers is not None:
                 err = self.error_arm(raises, handlers, s, env2, loop)
             return [f"match {call} with"] + err + [f"| .ok {tmp} =>"] + ind(self.bind(key, E(tmp, ty, None, True), s, env2, loop, k))
@@ -1885,6 +1943,8 @@ class Translator:
             return lines + cont(val, env2)
         self.tmp += 1
         tmp = f"v{self.tmp}_"
+        if handlers is None:
+            handlers = self._handlers
         if handlers is None:
             err = ["| .error e_ =>"] + ind(self.wrap_error("e_", s, loop, env2))
         else:
@@ -1954,6 +2014,27 @@ class Translator:
         self.aux = list(aux)
         self.loop_memo = dict(memo)
 
+    def modified_names(self, stmts, env):
+        """the names / state keys the statements may change: assignment targets, and the state a
+        stateful callee, a collaborator call or a declared effect hands back"""
+        assigned = assigned_names(stmts)
+        for st_ in stmts:
+            for x in ast.walk(st_):
+                if isinstance(x, ast.Call):
+                    try:
+                        r_ = self.resolve_call(x, env)
+                    except Exception:  # noqa: BLE001
+                        r_ = None
+                    if r_ is not None:
+                        for key_ in list(r_[0].state or ()) + ([r_[0].effect_key] if r_[0].effect_key else []):
+                            if key_ not in assigned:
+                                assigned.append(key_)
+                if isinstance(x, ast.Expr):
+                    for key_, _ in self.spec.effects.get(ast.unparse(x.value), []):
+                        if key_ not in assigned:
+                            assigned.append(key_)
+        return assigned
+
     def stmt_if_joined(self, s, env, loop, k):
         """an `if` statement outside loops: when the statements that follow it are reached from
         several branches and are long, they become one local function (`let k1_ (vars…) := …`)
@@ -1974,7 +2055,7 @@ class Translator:
         self.restore(snap)
         self.njoin += 1
         jname = f"k{self.njoin}_"
-        names = assigned_names([s])
+        names = self.modified_names([s], env)
         jp = {"sig": None}
 
         def kj(env2, loop2):
@@ -2001,7 +2082,8 @@ class Translator:
             self.restore(after_plain)
             return plain
         binders = "".join(f" ({lean_name(nm)} : {lean_ty(ty)})" for nm, ty in jp["sig"])
-        head = [f"-- [the statements after the following `if`, shared by its branches: {jname}]", f"let {jname}{binders} : {self.ret_lean_ty} :="]
+        jty = self.ret_lean_ty if loop is None else loop.join_ty
+        head = [f"-- [the statements after the following `if`, shared by its branches: {jname}]", f"let {jname}{binders} : {jty} :="]
         return head + ind(tail) + body
 
     def simple_if(self, s, env):
@@ -2126,12 +2208,34 @@ class Translator:
         return body(env)
 
     def stmt_try(self, s, env, loop, k):
-        if s.orelse or s.finalbody or len(s.body) != 1:
-            self.bad(s, "try with else / finally / more than one statement in the body")
+        """`try: <statements> except <classes> [as e]: <handler>`: every raising call of the body is
+        bound with the except clauses as its error arm; the bound name may only be used as the cause
+        of a `raise ... from e` (which is ignored: only the class of an exception is modelled)"""
+        if s.orelse or s.finalbody:
+            self.bad(s, "try with else / finally")
+        saved = self._handlers
+
+        def outside(fn):
+            def g(env2, loop2=None):
+                cur = self._handlers
+                self._handlers = saved
+                try:
+                    return fn(env2)
+                finally:
+                    self._handlers = cur
+
+            return g
+
         handlers = []
         for h in s.handlers:
-            if h.name is not None or h.type is None:
-                self.bad(h, "except clause binding the exception or catching everything")
+            if h.type is None:
+                self.bad(h, "except clause catching everything")
+            if h.name is not None:
+                for x in ast.walk(ast.Module(body=h.body, type_ignores=[])):
+                    if isinstance(x, ast.Name) and x.id == h.name:
+                        parent_ok = any(isinstance(r_, ast.Raise) and r_.cause is x for r_ in ast.walk(ast.Module(body=h.body, type_ignores=[])))
+                        if not parent_ok:
+                            self.bad(h, "the bound exception is used other than as the cause of `raise ... from`")
             if isinstance(h.type, ast.Name):
                 classes = [h.type.id]
             elif isinstance(h.type, ast.Tuple) and all(isinstance(x, ast.Name) for x in h.type.elts):
@@ -2141,22 +2245,12 @@ class Translator:
             for c in classes:
                 if c not in EXC_PARENT:
                     self.bad(h, f"exception class {c!r} is not in py2lean's hierarchy table")
-
-            def hbody(env2, h=h):
-                return self.comment(h) + self.block(h.body, env2, loop, k)
-
-            handlers.append((classes, hbody))
-        b = s.body[0]
-        out = self.comment(s, "try:")
-        if isinstance(b, ast.Return):
-            return out + self.comment(b) + self.stmt_value(b, b.value if b.value is not None else ast.Constant(value=None), env, loop, lambda e, env2: self.emit_return(e, b, env2, loop), handlers)
-        if isinstance(b, ast.Assign) and len(b.targets) == 1:
-            return out + self.comment(b) + self.stmt_value(b, b.value, env, loop, lambda e, env2: self.bind(b.targets[0], e, b, env2, loop, k), handlers)
-        if isinstance(b, ast.Expr) and isinstance(b.value, ast.Call):
-            res = self.resolve_call(b.value, env)
-            if res is not None and res[0].state and res[0].raises:
-                return out + self.comment(b) + self.stateful_call(b, b.value, res, env, loop, handlers, lambda e, env2: k(env2, loop))
-        self.bad(s, "try body that is not a single assignment, return or call of a stateful method")
+            handlers.append((classes, outside(lambda env2, h=h: self.comment(h) + self.block(h.body, env2, loop, k))))
+        self._handlers = handlers
+        try:
+            return self.comment(s, "try:") + self.block(s.body, env, loop, lambda env2, loop2: outside(lambda e: k(e, loop2))(env2))
+        finally:
+            self._handlers = saved
 
     # ---- loops ----------------------------------------------------------
 
@@ -2169,7 +2263,7 @@ class Translator:
                 self.bad(node, f"loop state {nm!r} is not defined here")
             v = env[nm]
             args.append(P(self.coerce(E(v.lean, v.ty, None, True, nm), ty, node)))
-        return [f"{lc.fname}{lc.head} rest_" + "".join(" " + a for a in args)]
+        return [f"{lc.fname}{lc.head} {getattr(lc, 'iter_arg', 'rest_')}" + "".join(" " + a for a in args)]
 
     def loop_fall(self, lc: LoopCtx, env, node):
         """`break`"""
@@ -2203,6 +2297,69 @@ class Translator:
             v = env[nm]
             items.append(self.coerce(E(v.lean, v.ty, None, True, nm), ty, node).lean)
         return "(" + ", ".join(items) + ")" if len(items) > 1 else (items[0] if _is_atomic_text(items[0]) else f"({items[0]})")
+
+    def stmt_while(self, s, env, loop, k):
+        """`while cond: body` as a recursion on the explicit `fuel`: one unit per iteration; with no
+        fuel left the function answers the marker error "py2lean: out of fuel" """
+        if loop is not None:
+            self.bad(s, "nested loops")
+        if s.orelse:
+            self.bad(s, "while ... else")
+        if not self.raises:
+            self.bad(s, "a while loop needs a function declared raises=True (running out of fuel is an error value)")
+
+        def body(env1):
+            assigned = self.modified_names(s.body, env1)
+            state = [nm for nm in assigned if nm in env1]
+            order = {key_: i for i, key_ in enumerate(self.state_keys())}
+            state = sorted([nm for nm in state if nm in order], key=lambda nm: order[nm]) + [nm for nm in state if nm not in order]
+            for nm in state:
+                if env1[nm].ty.kind in ("None", "Opt"):
+                    self.bad(s, f"loop state {nm!r} is None / Optional before the loop")
+            state_tys = [env1[nm].ty for nm in state]
+            used = free_names(s.body) | free_names([s.test])
+            if self.spec.state:
+                used = used | set(self.state_keys())
+            captured = [nm for nm in env1 if not nm.startswith("<") and nm in used and nm not in state and env1[nm].ty != NONE]
+            fname = f"{self.spec.name}.loop{self.nloops + 1}"
+            head = self.opaque_args + "".join(" " + env1[nm].lean for nm in captured)
+            lc = LoopCtx(fname, head, state, state_tys)
+            lc.iter_arg = "fuel_"
+            lc.iter_key = None
+            st_ty = "Unit" if not state else " × ".join(lean_ty(t, False) for t in state_tys)
+            # inside a while loop the statements after an `if` may be shared by a local function
+            lc.join_ty = f"Pre.Loop {_par(self.ret_lean_ty)} {_par(st_ty)}"
+            env_b = {nm: env1[nm] for nm in captured}
+            for nm, ty in zip(state, state_tys):
+                env_b[nm] = Var(env1[nm].lean, ty)
+            if self.raising_calls(s.test, env_b):
+                self.bad(s, "a raising / effectful call in the test of a while loop")
+            c = self.cond(s.test, env_b)
+            body_lines = self.block(s.body, env_b, lc, lambda env2, loop2: self.loop_next(lc, env2, s))
+            st_ty = "Unit" if not state else " × ".join(lean_ty(t, False) for t in state_tys)
+            binders = (" " + self.implicit.strip() if self.implicit else "") + "".join(f" ({nm} : {ty})" for nm, ty in self.spec.opaque)
+            binders += "".join(f" ({env1[nm].lean} : {lean_ty(env1[nm].ty)})" for nm in captured)
+            sig = " → ".join(["Nat"] + [lean_ty(t, True) for t in state_tys] + [f"Pre.Loop {_par(self.ret_lean_ty)} {_par(st_ty)}"])
+            st_pats = "".join(", " + env1[nm].lean for nm in state)
+            aux = [f"/-- the `{self.srcline(s)}` loop of `{self.spec.qualname}`, one unit of fuel per iteration: `.ret r` = the function returned `r` inside the loop (or ran out of fuel: a marker error), `.fall st` = the loop test became false (or `break`) with loop state `st` -/", f"def {fname}{binders} : {sig}"]
+            aux.append(f"  | 0{st_pats} => " + self.wrap_error('"py2lean: out of fuel"', s, lc, env_b)[0])
+            aux.append(f"  | fuel_ + 1{st_pats} =>")
+            aux += ["    " + ln for ln in self.comment(s) + [f"if {c.lean} then"] + ind(body_lines) + ["else", "  .fall " + self.state_tuple(lc, env_b, s)]]
+            self.nloops += 1
+            self.aux.append("\n".join(aux) + "\n")
+            init = "".join(" " + P(E(env1[nm].lean, env1[nm].ty, None, True)) for nm in state)
+            env_after = dict(env1)
+            for nm in state:
+                drop_facts(env_after, nm)
+            if not state:
+                fall_pat = "()"
+            elif len(state) == 1:
+                fall_pat = env1[state[0]].lean
+            else:
+                fall_pat = "(" + ", ".join(env1[nm].lean for nm in state) + ")"
+            return [f"match {fname}{head} fuel{init} with", "| .ret r_ => r_", f"| .fall {fall_pat} =>"] + ind(k(env_after, None))
+
+        return self.comment(s) + self.guarded(s, env, loop, body)
 
     def stmt_for_unrolled(self, s, env, loop, k):
         """`for x in (a, b, ...):` over a tuple / list *literal*: the body is repeated once per item
@@ -2265,6 +2422,10 @@ class Translator:
                                     assigned.append(key_)
             targets = self.target_names(s.target)
             state = [nm for nm in assigned if nm in env1 and nm not in targets and nm != iter_var]
+            # attributes of the object first, in the order the spec lists them (so that swapping two
+            # independent statements of the body does not permute the loop's arguments)
+            order = {key_: i for i, key_ in enumerate(self.state_keys())}
+            state = sorted([nm for nm in state if nm in order], key=lambda nm: order[nm]) + [nm for nm in state if nm not in order]
             for nm in state:
                 if env1[nm].ty == NONE:
                     self.bad(s, f"loop state {nm!r} is None before the loop: its type inside the loop is unknown")
@@ -2272,7 +2433,7 @@ class Translator:
             used = free_names(s.body)
             if self.spec.state:
                 # a return / raise inside the loop hands back the whole object state
-                used = used | {"self." + f for f in self.spec.state}
+                used = used | set(self.state_keys())
             captured = [nm for nm in env1 if not nm.startswith("<") and nm in used and nm not in state and nm not in targets and env1[nm].ty != NONE and nm != iter_var]
             fname = f"{self.spec.name}.loop{self.nloops + 1}"
             head = self.opaque_args + "".join(" " + env1[nm].lean for nm in captured)
